@@ -19,28 +19,30 @@ _installed = False
 @contextmanager
 def deadline(seconds=2.0):
     """Watchdog around library calls: a non-terminating call (e.g. a propagation loop that never
-    reaches a fixpoint) must become a violation, not a hung harness.  Main thread only."""
+    reaches a fixpoint) must become a violation, not a hung harness.  Main thread only.
+    The timer counts the CPU time of this process (ITIMER_VIRTUAL), so a loaded machine cannot
+    fire it on a call that is merely waiting for a core."""
     global _installed
     if not _installed:
-        signal.signal(signal.SIGALRM, _on_alarm)
+        signal.signal(signal.SIGVTALRM, _on_alarm)
         _installed = True
-    signal.setitimer(signal.ITIMER_REAL, seconds)
+    signal.setitimer(signal.ITIMER_VIRTUAL, seconds)
     try:
         yield
     finally:
-        signal.setitimer(signal.ITIMER_REAL, 0)
+        signal.setitimer(signal.ITIMER_VIRTUAL, 0)
 
 
 def arm(seconds=2.0):
     global _installed
     if not _installed:
-        signal.signal(signal.SIGALRM, _on_alarm)
+        signal.signal(signal.SIGVTALRM, _on_alarm)
         _installed = True
-    signal.setitimer(signal.ITIMER_REAL, seconds)
+    signal.setitimer(signal.ITIMER_VIRTUAL, seconds)
 
 
 def disarm():
-    signal.setitimer(signal.ITIMER_REAL, 0)
+    signal.setitimer(signal.ITIMER_VIRTUAL, 0)
 
 
 def tj(x):
